@@ -77,6 +77,7 @@ pub struct DlStats {
     pub unfragmented: bool,
     pub single_block: bool,
     pub chosen_szx: Option<u8>,
+    pub server_shrank_followup: bool,
 }
 
 fn sorted_opts(o: &[(u16, Vec<u8>)]) -> Vec<(u16, Vec<u8>)> {
@@ -267,8 +268,11 @@ pub fn download(server: &mut Server, cfg: &DlCfg, ids: &mut Ids) -> (Vec<Finding
                     if first && overhead + 32 + szx_size(cs) <= budget && szx != cs {
                         out.push(f(Scope::Budget, "client-size-not-honoured-although-it-fits", format!("client asked {} bytes, overhead {} budget {}: server used {}", szx_size(cs), overhead, budget, size)));
                     }
-                    if !first && szx != cs {
-                        bail!(Scope::Transfer, "follow-up-size-differs-from-request", "asked szx {} got {}", cs, szx);
+                    // a follow-up answered with a SMALLER size than asked is legal (the client then
+                    // continues at that size; block-number/offset agreement is checked below); a
+                    // larger one is C10's finding above
+                    if !first && szx < cs {
+                        st.server_shrank_followup = true;
                     }
                 }
                 if first {
